@@ -217,6 +217,15 @@ def stepEffect (st : Store) : List String → Option (Effect × String)
     | some sys, some w, some c =>
       (parseWeights? w).map fun w => (Effect.push { system := sys, coords := c, weights := w }, s!"ok {st.length}")
     | _, _, _ => none
+  | "set" :: i :: sys :: rest =>
+    -- slot `i` is replaced by a value supplied from outside (results of coordinate-system
+    -- conversions, which the rational model does not compute: it takes them as given)
+    match parseNat? i, parseSys? sys, rest.getLast?, parseCoords? rest.dropLast with
+    | some i, some sys, some w, some c =>
+      if i < st.length then
+        (parseWeights? w).map fun w => (Effect.update i { system := sys, coords := c, weights := w }, "ok")
+      else none
+    | _, _, _, _ => none
   | ["copy", i] => do
     let i ← parseNat? i; let g ← st[i]?
     pure (Effect.push g, s!"ok {st.length}")
